@@ -1517,13 +1517,14 @@ func (m *repoManager) setNodeNote(uuid dvid.UUID, note string) error {
 		return ErrInvalidVersion
 	}
 
-	node.Lock()
-	node.note = note
+	// lock order is repo then node, as in save() and addToNodeLog()
 	t := time.Now()
 	r.Lock()
+	node.Lock()
+	node.note = note
 	r.updated, node.updated = t, t
-	r.Unlock()
 	node.Unlock()
+	r.Unlock()
 	return r.save()
 }
 
